@@ -1554,6 +1554,7 @@ theorem C02_shell_refines_exact_by_id (s : Sys.Sys F) (evs : List Sys.Ev) (hinv 
         | setCfg cfg => exact other rfl (fun _ _ h => by cases h) (fun _ h => by cases h)
         | crit d => exact other rfl (fun _ _ h => by cases h) (fun _ h => by cases h)
         | failNext c => exact other rfl (fun _ _ h => by cases h) (fun _ h => by cases h)
+        | failAfter c k => exact other rfl (fun _ _ h => by cases h) (fun _ h => by cases h)
         | failBind c => exact other rfl (fun _ _ h => by cases h) (fun _ h => by cases h)
         | stamp idx w ld ccb cct => exact other rfl (fun _ _ h => by cases h) (fun _ h => by cases h)
         | syncTimeout => exact other rfl (fun _ _ h => by cases h) (fun _ h => by cases h)
